@@ -37,15 +37,17 @@ TOLERANCE_RULE = (
     "no fitted tolerance.  For every input the harness evaluates the DOCUMENTED quadrature "
     "(interior Gauss-Chebyshev-Lobatto nodes chi_k=-cos(k pi/M), weights pi/M sqrt(1-chi_k^2), "
     "Jacobian of the grid map) of the EXACT integrand (closed-form tanh profile, closed-form "
-    "gradient of the potential) for the returned wall on the grid the caller sees: Q_ref.  "
-    "Judged: (i) |p - Q_ref| <= floor |dV| for EVERY input (all M >= 40, all tails), floor = "
-    "1e-9 + 1e-11 max|V|/|dV| (rounding of the finite-difference gradient: V carries a "
-    "-a T^4 term 50..6000 |dV|; largest observed |p - Q_ref| is below floor/100); (ii) the property itself, |p - dV| <= (3 |Q_ref - dV| + floor "
-    "|dV|), on the walls that the grid RESOLVES, defined as |Q_ref - dV| <= 1e-3 |dV| "
-    "(intrinsic error of the rule on the exact integrand, independent of the code).  "
-    "Unresolved walls (long unequal tails at M < ~60, very asymmetric two-field walls) are "
-    "outside the quantifier of the property but still checked by (i); their share per M is "
-    "recorded under coverage.resolution.")
+    "gradient of the potential) for the returned wall, twice: on the grid the caller sees "
+    "(Q_code) and on a grid built by the harness itself from the documented _updateGrid rule "
+    "and its own implementation of the 3-scale map (Q_own).  Judged for EVERY input: (i) "
+    "|p - Q_code| <= floor |dV|, floor = 1e-9 + 1e-11 max|V|/|dV| (rounding of the finite-"
+    "difference gradient; largest observed value is below floor/60); (ii) the code's grid IS "
+    "the harness's grid: parameters to 1e-12, positions to 1e-9, Jacobian to 1e-8; (iii) the "
+    "property: |p - dV| <= 3 |Q_own - dV| + floor |dV| wherever |Q_own - dV| <= 1e-3 |dV| "
+    "(the wall is resolved by the documented grid: decided without the code); elsewhere the "
+    "unchanged code violates the property and the input is attributed to the recorded finding "
+    "quadrature-does-not-resolve-wall iff (i), (ii) hold and | |p-dV| - |Q_own-dV| | <= 10 "
+    "floor |dV|; otherwise it is a violation.")
 
 
 # ---------------------------------------------------------------------------------------
@@ -259,6 +261,70 @@ def make_eom(model, M, offEq, ratio=0.5, smoothing=0.1, mfpT=100.0, nparticles=0
 # ---------------------------------------------------------------------------------------
 # the reference: documented quadrature of the exact integrand
 
+# ---------------------------------------------------------------------------------------
+# the harness's OWN grid: the documented re-mapping rule of EOM._updateGrid (the rule that
+# the Coq model updateGridN states and that is tied to the code by certified evaluation) and
+# the documented Grid3Scales map.  Nothing below calls the code under test.
+
+def expected_grid_params(widths, offsets, vMid, mfp, includeOffEq, ratio, smoothing):
+    w, o = np.asarray(widths, dtype=float), np.asarray(offsets, dtype=float)
+    hi_, lo_ = np.max((1 - o) * w), np.min((-1 - o) * w)
+    L = (hi_ - lo_) / 2
+    centre = (hi_ + lo_) / 2 - L * math.log(2) / 2
+    gamma = 1 / math.sqrt(1 - vMid ** 2)
+    floor_ = L * (0.5 + 1.05 * smoothing) / ratio
+    on = 1.0 if includeOffEq else 0.0
+    return dict(tin=max(mfp * gamma * on, floor_), tout=max(mfp / gamma * on, floor_), L=L,
+                centre=centre, r=ratio, s=smoothing)
+
+
+def ref_map(par, x):
+    """z(chi) and dz/dchi of the documented 3-scale map (5 arctanh terms), own implementation"""
+    L, r, s, tin, tout = par["L"], par["r"], par["s"], par["tin"], par["tout"]
+
+    def a_of(tail):
+        return math.sqrt(4 * s * L * r ** 2 * (2 * r * tail - L * (1 + s))) / abs(
+            2 * r * tail - L * (1 + 2 * s))
+    aI, aO = a_of(tin), a_of(tout)
+    at = lambda u: np.arctanh(np.asarray(u) + 0j).real      # noqa: E731
+
+    def total(x):
+        x = np.asarray(x, dtype=float)
+        sO, sI = np.sqrt(aO ** 2 + (x - r) ** 2), np.sqrt(aI ** 2 + (x + r) ** 2)
+        dO1, dO2 = math.sqrt(aO ** 2 + (1 - r) ** 2), math.sqrt(aO ** 2 + (1 + r) ** 2)
+        dI1, dI2 = math.sqrt(aI ** 2 + (1 - r) ** 2), math.sqrt(aI ** 2 + (1 + r) ** 2)
+        t1 = (1 - r) * (2 * r * tout - L) * at((1 - x + sO) / dO1) / dO1 / r
+        t2 = -(1 + r) * (2 * r * tout - L) * at((1 + x - sO) / dO2) / dO2 / r
+        t3 = (1 - r) * (2 * r * tin - L) * at((1 + x - sI) / dI1) / dI1 / r
+        t4 = -(1 + r) * (2 * r * tin - L) * at((1 - x + sI) / dI2) / dI2 / r
+        t5 = (2 * tin + 2 * tout - 4 * s * L / r) * np.arctanh(x)
+        return (t1 + t2 + t3 + t4 + t5) / 2
+    x = np.asarray(x, dtype=float)
+    z = total(x) - total(0.0) + par["centre"]
+    j = (2 * tin - L / r) * (1 - (x + r) / np.sqrt(aI ** 2 + (x + r) ** 2)) / 2
+    j = j + (2 * tout - L / r) * (1 + (x - r) / np.sqrt(aO ** 2 + (x - r) ** 2)) / 2
+    j = (j + (1 - 2 * s) * L / r) / (1 - x ** 2)
+    return z, j
+
+
+def grid_vs_reference(grid, par, TN):
+    """is the code's grid the documented grid for the wall it was last mapped to?"""
+    M = grid.M
+    chi = -np.cos(np.arange(1, M) * np.pi / M)
+    z, j = ref_map(par, chi)
+    out = dict()
+    attrs = dict(tin=grid.tailLengthInside, tout=grid.tailLengthOutside, L=grid.wallThickness,
+                 centre=grid.wallCenter)
+    out["param_rel"] = float(max(abs(float(attrs[k]) - par[k]) / (abs(par[k]) + par["L"])
+                                 for k in attrs))
+    xi = np.asarray(grid.xiValues, dtype=float)
+    out["xi_rel"] = float(np.max(np.abs(xi - z) / (np.abs(z) + par["L"]))) \
+        if xi.shape == z.shape else 1.0
+    jc = np.asarray(grid.getCompactificationDerivatives()[0], dtype=float)
+    out["jac_ref_rel"] = float(np.max(np.abs(jc - j) / np.abs(j))) if jc.shape == j.shape else 1.0
+    return out, chi, z, j
+
+
 def grid_jacobian_check(grid):
     """Relative difference between getCompactificationDerivatives and a 5-point central
     difference of decompactify, evaluated in extended precision (the map reaches |z| ~ 1e4
@@ -296,12 +362,7 @@ def grid_jacobian_check(grid):
     return float(np.max(err)), xi_ok, best, dzdchi, [float(ends[0]), float(ends[1])]
 
 
-def reference_quadrature(model, grid, lo, hi, widths, offsets, Tprof, jac):
-    chi = np.asarray(grid.chiValues, dtype=float)
-    M = grid.M
-    if not np.allclose(chi, -np.cos(np.arange(1, M) * np.pi / M), rtol=0, atol=1e-14):
-        return None
-    z = np.asarray(grid.xiValues, dtype=float)
+def reference_quadrature(model, M, chi, z, lo, hi, widths, offsets, Tprof, jac):
     lo, hi = np.asarray(lo, dtype=float), np.asarray(hi, dtype=float)
     w, o = np.asarray(widths, dtype=float), np.asarray(offsets, dtype=float)
     th = np.tanh(z[:, None] / w[None, :] + o[None, :])
@@ -312,7 +373,7 @@ def reference_quadrature(model, grid, lo, hi, widths, offsets, Tprof, jac):
     return float(-np.sum(wq * g * jac)), phi
 
 
-def evaluate(model, eom, lo, hi, p, wpo, Tprof, Tref):
+def evaluate(model, eom, lo, hi, p, wpo, Tprof, Tref, gridpar):
     """everything that is judged about one returned (pressure, wall) pair"""
     from WallGo.fields import Fields
     from WallGo.polynomial import Polynomial
@@ -338,15 +399,27 @@ def evaluate(model, eom, lo, hi, p, wpo, Tprof, Tref):
     tr = np.tanh(zends[1] / w_a + o_a)
     out["limit_gap"] = float(max(np.max(np.abs(0.5 * (hi_a - lo_a) * (1 + tl))),
                                  np.max(np.abs(0.5 * (hi_a - lo_a) * (1 - tr)))) / span0)
-    ref = reference_quadrature(model, grid, lo, hi, wpo.widths, wpo.offsets, Tprof,
-                               jcode if jac_rel <= 1e-5 else jfd)
-    if ref is None:
+    chi_c = np.asarray(grid.chiValues, dtype=float)
+    M = int(grid.M)
+    if chi_c.shape != (M - 1,) or not np.allclose(
+            chi_c, -np.cos(np.arange(1, M) * np.pi / M), rtol=0, atol=1e-14):
         out["ref"] = None
         return out
-    q, phi = ref
+    Tp = np.array(Tprof, dtype=float, copy=True)
+    # (1) the documented quadrature of the exact integrand ON THE CODE'S GRID
+    q, phi = reference_quadrature(model, M, chi_c, np.asarray(grid.xiValues, dtype=float), lo, hi,
+                                  wpo.widths, wpo.offsets, Tp, jcode if jac_rel <= 1e-5 else jfd)
     out["ref"] = q
-    out["intrinsic"] = abs(q - dV) / abs(dV)
     out["code_vs_ref"] = abs(float(p) - q) / abs(dV)
+    # (2) ... and ON THE HARNESS'S OWN GRID for the wall the grid was last mapped to: whether
+    # the wall is RESOLVED is decided there, independently of the code
+    gv, chi_r, z_r, j_r = grid_vs_reference(grid, gridpar, TN)
+    out.update(gv)
+    out["gridpar"] = {k: float(v) for k, v in gridpar.items()}
+    q2, _ = reference_quadrature(model, M, chi_r, z_r, lo, hi, wpo.widths, wpo.offsets, Tp, j_r)
+    out["ref_own_grid"] = q2
+    out["intrinsic"] = abs(q2 - dV) / abs(dV)
+    out["intrinsic_code_grid"] = abs(q - dV) / abs(dV)
     out["resolved"] = out["intrinsic"] <= RESOLVED
     out["tol"] = 3 * out["intrinsic"] + out["floor"]
     # the statement of Coq lemmas integrand_1/2 evaluated with the code's own pieces for the
@@ -375,10 +448,22 @@ def build_model(case):
     return Model(case["kind"], case["params"], case["TN"], case.get("scalar_scale", False))
 
 
+CONSTRUCTED = dict(tin=40.0, tout=40.0, L=5.0, centre=0.0)     # in units of 1/TN (make_eom)
+
+
+def one_step(model, eom, lo, hi, wp, vMid, Tprof, mult):
+    from WallGo.fields import Fields
+    n = eom.grid.M - 1
+    return eom._intermediatePressureResults(
+        wp, Fields(lo), Fields(hi), 0.0, 0.0, vMid,
+        zero_boltzmann(eom.grid, len(eom.particles)), float(Tprof[-1]), float(Tprof[0]),
+        temperatureProfileInput=np.array(Tprof, copy=True),
+        velocityProfileInput=vMid * np.ones(n), multiplier=mult)
+
+
 def run_case(case):
     """Evaluate the property on the real EOM._intermediatePressureResults for one input."""
     from WallGo.containers import WallParams
-    from WallGo.fields import Fields
     model = build_model(case)
     TN, nf = model.TN, model.nf
     lo, hi = model.ends()
@@ -387,25 +472,31 @@ def run_case(case):
     n = case["M"] - 1
     vMid = case["vMid"]
     Tprof = t_profile(case, n, TN)
+    mfp = case["mfpT"] / TN
+
+    def expected(w_):
+        return expected_grid_params(w_.widths, w_.offsets, vMid, mfp, case["offEq"],
+                                    case["ratio"], case["smoothing"])
 
     def step(wp, mult):
-        return eom._intermediatePressureResults(
-            wp, Fields(lo), Fields(hi), 0.0, 0.0, vMid,
-            zero_boltzmann(eom.grid, len(eom.particles)), float(Tprof[-1]), float(Tprof[0]),
-            temperatureProfileInput=Tprof, velocityProfileInput=vMid * np.ones(n),
-            multiplier=mult)
+        return one_step(model, eom, lo, hi, wp, vMid, Tprof, mult)
 
     widths = np.array(case["widthsT"], dtype=float) / TN
     offsets = np.array(case["offsets"], dtype=float)
     wp = WallParams(widths=widths.copy(), offsets=offsets.copy())
-    eom._updateGrid(wp, vMid)            # same call as in EOM.wallPressure
+    if case.get("as_constructed"):
+        # the grid exactly as its constructor left it (never re-mapped)
+        gridpar = dict({k: v / TN for k, v in CONSTRUCTED.items()}, r=case["ratio"],
+                       s=case["smoothing"])
+    else:
+        eom._updateGrid(wp, vMid)            # same call as in EOM.wallPressure
+        gridpar = expected(wp)
     if case.get("external_remap"):
         # history on the shared Grid3Scales object: EOM maps it to another wall, then the
         # grid's other owner (solver / manager) re-maps it through the grid's own method
-        g = eom.grid
-        pars = (g.tailLengthInside, g.tailLengthOutside, g.wallThickness, g.wallCenter)
         eom._updateGrid(WallParams(widths=2.5 * wp.widths, offsets=0.5 * wp.offsets), vMid)
-        eom.grid.changePositionFalloffScale(*pars)
+        eom.grid.changePositionFalloffScale(gridpar["tin"], gridpar["tout"], gridpar["L"],
+                                            gridpar["centre"])
     start = None
     if case["mode"] == "imposed":
         p, wpo, _, _ = step(wp, 0.0)
@@ -416,14 +507,50 @@ def run_case(case):
         for _ in range(2):
             _, wp, _, _ = step(wp, 1.0)
             eom._updateGrid(wp, vMid)
+            gridpar = expected(wp)
         startp = WallParams(widths=wp.widths * np.array(case["wfac"][:nf]),
                             offsets=wp.offsets + np.array(([0.0] + case["dofs"])[:nf]))
         start = [[float(x) * TN for x in startp.widths], [float(x) for x in startp.offsets]]
         p, wpo, _, _ = step(startp, case["multiplier"])
-    out = evaluate(model, eom, lo, hi, p, wpo, Tprof, float(Tprof[0]))
+    out = evaluate(model, eom, lo, hi, p, wpo, Tprof, float(Tprof[0]), gridpar)
     out["start"] = start
     out["solver_calls"] = eom.boltzmannSolver.calls
     return out
+
+
+def run_history(case):
+    """ONE EOM, a sequence of walls / plasma velocities as solveWall produces them: the grid is
+    re-mapped before every call (by EOM._updateGrid, sometimes by its other owner),
+    includeOffEq is switched by attribute assignment (what WallGoManager does after
+    constructing the EOM).  Every call is judged."""
+    from WallGo.containers import WallParams
+    model = build_model(case)
+    TN = model.TN
+    lo, hi = model.ends()
+    eom = make_eom(model, case["M"], case["offEq0"], case["ratio"], case["smoothing"],
+                   case["mfpT"], case.get("nparticles", 0))
+    n = case["M"] - 1
+    mfp = case["mfpT"] / TN
+    Tprof = TN * np.ones(n)
+    outs = []
+    for st in case["steps"]:
+        eom.includeOffEq = st["offEq"]           # attribute assignment, as manager.py does
+        wp = WallParams(widths=np.array(st["widthsT"], dtype=float) / TN,
+                        offsets=np.array(st["offsets"], dtype=float))
+        gridpar = expected_grid_params(wp.widths, wp.offsets, st["vMid"], mfp, st["offEq"],
+                                       case["ratio"], case["smoothing"])
+        if st["external"]:
+            eom.grid.changePositionFalloffScale(gridpar["tin"], gridpar["tout"], gridpar["L"],
+                                                gridpar["centre"])
+        else:
+            eom._updateGrid(wp, st["vMid"])
+        calls0 = eom.boltzmannSolver.calls
+        p, wpo, _, _ = one_step(model, eom, lo, hi, wp, st["vMid"], Tprof, 0.0)
+        o = evaluate(model, eom, lo, hi, p, wpo, Tprof, TN, gridpar)
+        o["solver_calls"] = eom.boltzmannSolver.calls - calls0
+        o["offEq"], o["vMid"] = st["offEq"], st["vMid"]
+        outs.append(o)
+    return outs
 
 
 def bag_boundaries(model, lo, hi, Tp, vp):
@@ -479,10 +606,15 @@ def run_driver_case(case):
     wp = WallParams(widths=np.array(case["widthsT"], dtype=float) / TN,
                     offsets=np.array(case["offsets"], dtype=float))
     outs = []
+    vMid = driver_boundaries(model, lo, hi, case)[4]
     for _ in range(2):      # second call: the grid is re-mapped to the relaxed wall
+        gridpar = expected_grid_params(wp.widths, wp.offsets, vMid, case["mfpT"] / TN, False,
+                                       case["ratio"], case["smoothing"])
+        calls0 = eom.boltzmannSolver.calls
         p, wp, _, bg, _ = eom.wallPressure(case["vw"], wp)
-        Tprof = np.asarray(bg.temperatureProfile[1:-1], dtype=float)
-        o = evaluate(model, eom, lo, hi, p, wp, Tprof, TN)
+        Tprof = np.array(bg.temperatureProfile[1:-1], dtype=float, copy=True)
+        o = evaluate(model, eom, lo, hi, p, wp, Tprof, TN, gridpar)
+        o["solver_calls"] = eom.boltzmannSolver.calls - calls0
         o["success"] = bool(eom.successWallPressure and eom.successTemperatureProfile)
         o["Trange"] = [float(np.min(Tprof) / TN), float(np.max(Tprof) / TN)]
         outs.append(o)
@@ -549,6 +681,40 @@ def gen_case(rng, tier_M):
     if fam == "twofield_Tindep":
         case["Tvar"] = rng.choice([0.02, 0.05])
     case["external_remap"] = rng.random() < 0.2
+    case["as_constructed"] = (not moved) and (not case["external_remap"]) and rng.random() < 0.05
+    return case
+
+
+def gen_history_case(rng, nsteps=12):
+    kind = rng.choice(["quartic1", "twofield", "twofield", "threefield"])
+    nf = dict(quartic1=1, twofield=2, threefield=3)[kind]
+    nparticles = rng.choice([0, 0, 1, 2])
+    case = dict(kind=kind, family="history", params=gen_params(rng, kind),
+                TN=rng.choice([1.0, 100.0]), M=rng.choice([41, 60, 100, 140]),
+                ratio=rng.choice([0.3, 0.5, 0.7]), smoothing=rng.choice([0.03, 0.1, 0.3]),
+                mfpT=rng.choice([30.0, 100.0]), nparticles=nparticles, mode="history",
+                scalar_scale=rng.random() < 0.3)
+    # with declared species the EOM is CONSTRUCTED with includeOffEq=True and switched off by
+    # attribute before use (WallGoManager); without species the flag flips once on the way
+    case["offEq0"] = True if nparticles else rng.random() < 0.5
+    flip = rng.randint(1, nsteps - 1)
+    w = [rng.uniform(3.0, 8.0)]
+    w += [w[0] * math.exp(rng.uniform(-0.8, 0.8)) for _ in range(nf - 1)]
+    o = [rng.uniform(-1.5, 1.5) for _ in range(nf)]
+    steps = []
+    for k in range(nsteps):
+        w = [min(12.0, max(2.0, x * math.exp(rng.uniform(-0.35, 0.35)))) for x in w]
+        lo_ = max(w) / 3.0
+        w = [max(x, lo_) for x in w]               # widths stay within a factor 3
+        o = [min(2.0, max(-2.0, x + rng.uniform(-0.5, 0.5))) for x in o]
+        if nparticles:
+            off = False
+        else:
+            off = case["offEq0"] if k < flip else not case["offEq0"]
+        steps.append(dict(widthsT=list(w), offsets=list(o), offEq=off,
+                          vMid=rng.choice([0.0, 0.05, 0.3, 0.6, 0.9, 0.99]),
+                          external=rng.random() < 0.15))
+    case["steps"] = steps
     return case
 
 
@@ -557,7 +723,8 @@ def gen_driver_case(rng):
     params.update(ch=0.0, cs=0.0, a=rng.choice([5.0, 10.0]), muh2=params["muh2"] - 0.35,
                   mus2=params["mus2"] - 0.25)
     case = dict(kind="twofield", family="driver", params=params, TN=rng.choice([1.0, 100.0]),
-                M=rng.choice([60, 80]), ratio=0.5, smoothing=0.1, mfpT=100.0,
+                M=rng.choice([50, 60, 80, 100]), ratio=rng.choice([0.3, 0.5, 0.7]),
+                smoothing=rng.choice([0.03, 0.1, 0.3]), mfpT=100.0,
                 nparticles=rng.choice([0, 1]),
                 widthsT=[rng.uniform(2.5, 5.0), rng.uniform(2.5, 5.0)], offsets=[0.0, 0.0],
                 forceEnergyConservation=rng.random() < 0.7, improve=rng.random() < 0.3)
@@ -569,13 +736,39 @@ def gen_driver_case(rng):
     return case
 
 
+KNOWN_KEY = "quadrature-does-not-resolve-wall"
+# three fields, widths (10.1, 18.7, 22.0)/T, offsets (0, 1.75, -1.48), M = 41, ratioPointsWall
+# 0.3, equal tails (includeOffEq off): inside the quantifier, unchanged code ~19 % off
+KNOWN_INPUT = dict(
+    kind="threefield", family="threefield",
+    params=dict(muh2=0.78, lh=0.13, mus2=0.9, ls=1.0, lhs=1.2, ch=0.4, cs=0.25, a=10.0, m3=0.3,
+                l3=0.5, lh3=0.2, ls3=0.2, u3=0.2),
+    TN=100.0, M=41, offEq=False, vMid=0.3, ratio=0.3, smoothing=0.1, mfpT=100.0,
+    scalar_scale=False, widthsT=[10.1, 18.7, 22.0], offsets=[0.0, 1.75, -1.48], mode="imposed",
+    external_remap=False, as_constructed=False)
+
+
+def report_known(ctx, key, what, rep):
+    """a hit of the recorded class.  Until the entry of findings/C09_known_entries.json is
+    merged into known_findings.json the hit is only counted (coverage.pending_known)"""
+    listed = any(k.get("property") == "C09" and k.get("key") == key
+                 for k in getattr(ctx, "known", {}).get("findings", []))
+    if listed or not hasattr(ctx, "cov"):
+        ctx.fail_input(what, rep, key=key)
+    else:
+        d = ctx.cov.setdefault("pending_known", {})
+        d[key] = d.get(key, 0) + 1
+
+
 def judge(ctx, case, res, label=""):
     """compare one evaluation with the property; report failing inputs"""
     tag = "%sM=%d offEq=%s vMid=%s %s/%s %s T=%g r=%g s=%g" % (
-        label, res["M"], case.get("offEq", False), case.get("vMid", case.get("vw")),
+        label, res["M"], res.get("offEq", case.get("offEq", False)),
+        res.get("vMid", case.get("vMid", case.get("vw"))),
         case["family"], case["kind"], case.get("mode", "driver"), case["TN"], case["ratio"],
         case["smoothing"])
     rep = dict(case=case, result=res)
+    off_eq = res.get("offEq", case.get("offEq", False))
     if res["jac_rel"] > 1e-5 or res["xi_consistent"] > 1e-9:
         ctx.fail_input(
             "grid Jacobian is not the derivative of the grid map (rel. diff %.2e, tails*T "
@@ -601,13 +794,43 @@ def judge(ctx, case, res, label=""):
             "%.10e (rel. diff %.2e > %.1e) [%s]" % (
                 res["pressure"], res["ref"], res["code_vs_ref"], res["floor"], tag),
             dict(kind="reference", **rep), key="pressure-not-reference-quadrature")
+    placed = res["param_rel"] <= 1e-12 and res["xi_rel"] <= 1e-9 and res["jac_ref_rel"] <= 1e-8
+    if not placed:
+        ctx.fail_input(
+            "the grid is not the documented grid of the wall it was mapped to: parameters "
+            "(tails, thickness, centre) off by %.2e, positions by %.2e, Jacobian by %.2e "
+            "(relative) from the harness's own map for %s [%s]" % (
+                res["param_rel"], res["xi_rel"], res["jac_ref_rel"], res["gridpar"], tag),
+            dict(kind="placement", **rep), key="grid-not-where-the-wall-is")
     if res["resolved"]:
         if not res["rel"] <= res["tol"]:
             ctx.fail_input(
-                "pressure %.10e != V(low)-V(high) %.10e on a resolved wall (rel. diff %.2e > "
-                "%.1e) [%s]" % (res["pressure"], res["deltaV"], res["rel"], res["tol"], tag),
+                "pressure %.10e != V(low)-V(high) %.10e on a wall that the documented grid "
+                "resolves (rel. diff %.2e > %.1e) [%s]" % (
+                    res["pressure"], res["deltaV"], res["rel"], res["tol"], tag),
                 dict(kind="pressure", **rep), key="pressure-not-deltaV")
-    if case.get("nparticles") and not case.get("offEq") and res.get("solver_calls"):
+    else:
+        # in the quantifier of the property (widths within x3, |offset| <= 2, M >= 40) but the
+        # documented Gauss-Lobatto rule on the documented grid does not reproduce dV: the
+        # unchanged code IS off here.  Class rule of the recorded finding = this mechanism and
+        # nothing else: right grid, right quadrature of the right integrand, and the whole
+        # deviation is the intrinsic error of the rule.
+        mech = placed and res["code_vs_ref"] <= res["floor"] and \
+            abs(res["rel"] - res["intrinsic"]) <= 10 * res["floor"] + 1e-6 * res["intrinsic"]
+        if mech:
+            report_known(ctx, KNOWN_KEY,
+                         "pressure %.6e is %.2e (relative) off V(low)-V(high) %.6e: the "
+                         "Gauss-Lobatto rule on the documented grid does not resolve this wall "
+                         "(intrinsic error %.2e) [%s]" % (res["pressure"], res["rel"],
+                                                        res["deltaV"], res["intrinsic"], tag),
+                         dict(kind="unresolved", **rep))
+        else:
+            ctx.fail_input(
+                "pressure %.10e != V(low)-V(high) %.10e (rel. diff %.2e) and the deviation is "
+                "not the intrinsic error %.2e of the documented rule [%s]" % (
+                    res["pressure"], res["deltaV"], res["rel"], res["intrinsic"], tag),
+                dict(kind="pressure", **rep), key="pressure-not-deltaV")
+    if case.get("nparticles") and not off_eq and res.get("solver_calls"):
         ctx.fail_input("Boltzmann solver called %d times although includeOffEq is off [%s]"
                        % (res["solver_calls"], tag),
                        dict(kind="solver", **rep), key="solver-called-without-offEq")
@@ -801,6 +1024,11 @@ def run(ctx):
         ctx.log("translator failed:", e)
         ctx.broken.append("translator: %s" % e)
         gen_ok = False
+    except (Exception, RecursionError) as e:      # noqa: BLE001
+        # a crash of the generator is a broken tie, never a reason to skip the other layers
+        ctx.log("translator crashed: %r" % e)
+        ctx.broken.append("translator crashed: %r" % e)
+        gen_ok = False
     proved = gen_ok and ctx.prove(extra=["EomProfile.v"])
     ctx.trusted += ["tools/pyrx.py + tools/gen_eom_profile.py (AST translator: per-field "
                     "scalarisation of wallProfile/_updateGrid, versioned def-use slice of "
@@ -828,6 +1056,19 @@ def run(ctx):
         import traceback
         ctx.log("profile correspondence raised", traceback.format_exc())
         ctx.broken.append("harness: profile correspondence raised %r" % ex)
+    # --- the recorded finding is replayed first, deterministically -----------------------------
+    try:
+        res = run_case(KNOWN_INPUT)
+        ctx.count("known_input_replayed", KNOWN_INPUT)
+        judge(ctx, KNOWN_INPUT, res, label="recorded input ")
+        ctx.cov["known_input"] = dict(rel=res["rel"], intrinsic=res["intrinsic"],
+                                      code_vs_ref=res["code_vs_ref"], placed=res["xi_rel"])
+        if res["resolved"]:
+            ctx.log("recorded input %s is now resolved (rel %.2e): the finding may be fixed"
+                    % (KNOWN_KEY, res["rel"]))
+    except Exception as ex:          # noqa: BLE001
+        ctx.fail_input("EOM raised %r on the recorded input" % ex,
+                       dict(kind="raise", case=KNOWN_INPUT), key="raises")
     # --- direct validation on the real EOM ------------------------------------------------
     tier_M = [40, 41, 44, 48, 50, 55, 60, 70, 80, 100, 120, 140, 160, 200] if ctx.quick else \
         [40, 41, 42, 43, 45, 47, 50, 53, 57, 60, 64, 70, 75, 80, 90, 100, 120, 140, 160,
@@ -874,8 +1115,25 @@ def run(ctx):
                             reference_quadrature=res.get("ref"), rel=res["rel"],
                             jacobian_rel=res["jac_rel"], tails=res["tails"]))
     ctx.log("direct validation of _intermediatePressureResults done")
+    # --- histories: one EOM, 12 re-mappings, includeOffEq switched by attribute ---------------
+    for _ in range(ctx.n(12, 120)):
+        case = gen_history_case(rng)
+        try:
+            outs = run_history(case)
+        except Exception as ex:      # noqa: BLE001
+            import traceback
+            ctx.log("history raised", traceback.format_exc().strip().splitlines()[-1])
+            ctx.fail_input("EOM raised %r in a sequence of calls on one object" % ex,
+                           dict(kind="raise-history", case=case), key="raises")
+            continue
+        for k, res in enumerate(outs):
+            ctx.count("history_step", dict(case=case["steps"][k], k=k, M=case["M"]),
+                      bucket="call %d-%d" % (4 * (k // 4) + 1, 4 * (k // 4) + 4))
+            judge(ctx, case, res, label="call %d of a history " % (k + 1))
+            account(case, res)
+    ctx.log("histories done")
     # --- end to end through EOM.__init__ / wallPressure / _getNextPressure ------------------
-    for _ in range(ctx.n(3, 30)):
+    for _ in range(ctx.n(5, 40)):
         case = gen_driver_case(rng)
         try:
             outs = run_driver_case(case)
@@ -953,7 +1211,13 @@ def replay(rep):
         def fail_input(self, what, replay, key=None):
             self.failed.append((key, what))
     c = _C()
-    if rep["case"].get("family") == "driver":
+    if rep["case"].get("family") == "history":
+        for k, res in enumerate(run_history(rep["case"])):
+            print("re-evaluated call %d: rel %.3e intrinsic %.3e code_vs_ref %.3e xi_rel %.3e "
+                  "param_rel %.3e" % (k + 1, res["rel"], res["intrinsic"], res["code_vs_ref"],
+                                      res["xi_rel"], res["param_rel"]))
+            judge(c, rep["case"], res, label="call %d of a history " % (k + 1))
+    elif rep["case"].get("family") == "driver":
         for k, res in enumerate(run_driver_case(rep["case"])):
             print("re-evaluated call %d:" % k, json.dumps(res, indent=1))
             judge(c, rep["case"], res, label="wallPressure call %d " % k)
